@@ -112,5 +112,5 @@ CANARIES = ['canary_check']
 TRUSTED = [
     'external_body Table (rows = scan(); resolve = `column_names.iter().map(|n| table.schema.get_column_index(n)).collect::<Option<Vec<usize>>>()`: the positions of the named columns in the order of the names, None if one is unknown), project (`positions.iter().map(|&i| row.values[i].clone()).collect()`; requires the positions to exist in the row), KeySet (std HashSet<Vec<SqlValue>>: KeySet::new is empty, insert returns whether the key was new), has_null (`key.iter().any(|v| v.is_null())`, is_null uninterpreted), null_in_key / duplicate_keys (the two ConstraintViolation errors with their format! texts)',
     'the let-else `let Some(positions) = positions else { return Ok(()) }` is written as the match it abbreviates; R10 rewrite of `for row in table.scan()`; SqlValue, Str, ExecutorError opaque; Row reduced to its values',
-    'NOT under contract: execute_add_constraint around it (that the check runs BEFORE the schema is changed, the catalog refresh), ADD CHECK / ADD FOREIGN KEY (existing rows are not checked: observed)',
+    'NOT under contract: execute_add_constraint around it (that the check runs BEFORE the schema is changed, the catalog refresh), ADD CHECK (existing rows evaluated since fix 52830b89: through the expression evaluator, not under contract) / ADD FOREIGN KEY (existing rows are not checked: observed)',
 ]
